@@ -49,7 +49,7 @@ for n in ("p6_auto", "p6_wipe"):
     H(n, src="p_lang.c", tus=["lang", "dependency"], strip=P6_STRIP, flags=CAD + ["--unwind", "17"], cap=300, rss=3.0)
 
 H("p1_write", src="p_str.c", tus=["polyseed", "dependency"], flags=CAD + ["--unwind", "98"], cap=120, rss=1.0)
-H("p3_lazy", src="p_str.c", tus=["dependency"], flags=CAD + ["--unwind", "402"], cap=300, rss=2.0)
+H("p3_lazy", src="p_str.c", tus=["dependency"], defs=["DEP_STR_MAX=1"], flags=CAD, cap=300, rss=2.0)
 H("p4_split", src="p_str.c", tus=["polyseed", "dependency"], flags=CAD, cap=600, rss=3.0)
 
 for n in ("t4_table", "t4_distinct", "t4_selffind"):
@@ -69,12 +69,180 @@ def I(hname, cfg="s", defs=(), **kw):
     return d
 
 
+def UW(n):
+    return ["--unwind", str(n)]
+
+
+LANGS = ["en", "jp", "ko", "es", "fr", "it", "cs", "pt", "zh_s", "zh_t"]
+RULE_OF = {"en": 1, "it": 1, "cs": 1, "pt": 1, "es": 3, "fr": 3, "jp": 0, "ko": 0, "zh_s": 0, "zh_t": 0}
+
+
+# ---- instance groups ---------------------------------------------------
+def g_k2():
+    return [I("k1_mul2"), I("k2_eval"), I("k2_single"), I("k2_swap"), I("k2_unique"), I("k2_coin")]
+
+
+def g_k3():
+    return [I("k3_pack"), I("k3_unpack"), I("k3_round")]
+
+
+def g_p1():
+    return [I("p1_write", defs=["P1_OFF=0", "P1_SRC=34"]), I("p1_write", defs=["P1_OFF=23", "P1_SRC=34"])]
+
+
+def g_p3(tier, cfgs=("s",)):
+    out = []
+    for c in cfgs:
+        out += [I("p3_lazy", cfg=c, defs=["P3_LEN=48"], flags=UW(51), cap=120, rss=0.5),
+                I("p3_lazy", cfg=c, defs=["P3_PREFIX=340"], flags=UW(402), cap=240, rss=1.5)]
+        if tier == "thorough":
+            out.append(I("p3_lazy", cfg=c, flags=UW(402), cap=1200, rss=6.5))
+    return out
+
+
+P4B_QUICK = [(16, 3, 0, 0), (16, 3, 1, 0), (17, 0, 0, 0), (17, 2, 1, 0), (15, 1, 0, 0), (15, 2, 1, 2), (16, 0, 0, 1), (16, 2, 0, 3)]
+
+
+def p4b_cells(tier):
+    if tier == "quick":
+        return P4B_QUICK
+    cells = []
+    for ntok in (15, 16, 17):
+        for pat in (0, 1, 2, 3):
+            for trail in (0, 1):
+                for dbl in ((0, 2) if pat in (1, 3) else (1, 3)):
+                    cells.append((ntok, pat, trail, dbl))
+    return cells
+
+
+def g_p4(tier, cfgs=("s",)):
+    out = []
+    for c in cfgs:
+        if tier == "quick":
+            out.append(I("p4_split", cfg=c, defs=["P4_LEN=12"], flags=UW(19), cap=300, rss=1.0))
+        else:
+            for n in range(0, 27):
+                out.append(I("p4_split", cfg=c, defs=["P4_LEN=%d" % max(n, 1), "P4_EXACT=%d" % n], flags=UW(max(n, 16) + 3), cap=1800, rss=2.0))
+        for (ntok, pat, trail, dbl) in p4b_cells(tier):
+            out.append(I("p4_split", cfg=c, defs=["P4_LEN=80", "P4_NTOK=%d" % ntok, "P4_PATTERN=%d" % pat,
+                                                  "P4_TRAIL=%d" % trail, "P4_DOUBLE=%d" % dbl],
+                         flags=UW(83), cap=900, rss=4.5))
+    return out
+
+
+def g_p5():
+    return [I("p5_decode"), I("p5_decode_explicit")]
+
+
+def g_p6(cfgs=("s",)):
+    return [I("p6_auto", cfg=c) for c in cfgs]
+
+
+def t1_bounds(rule, tier):
+    # (KMAX, WMAX): longest token / word bytes covered
+    if rule == 0:
+        return (36, 34)
+    if rule == 1:
+        return (12, 10)
+    return (8, 6) if tier == "quick" else (10, 8)
+
+
+def g_t1(tier, cfgs=("s",), rules=(0, 1, 2, 3)):
+    out = []
+    for c in cfgs:
+        out.append(I("t1_comparer", cfg=c, flags=UW(4), cap=60, rss=0.5))
+        for r in rules:
+            k, w = t1_bounds(r, tier)
+            out.append(I("t1_accept", cfg=c, defs=["RULE=%d" % r, "KMAX=%d" % k, "WMAX=%d" % w], flags=UW(max(k, w) + 2), cap=900, rss=2.0))
+    return out
+
+
+def g_t1_safety(cfgs=("s",)):
+    out = []
+    for c in cfgs:
+        for r in (0, 1, 2, 3):
+            k, w = (20, 16) if r < 2 else (8, 6)
+            out.append(I("t1_safety", cfg=c, defs=["RULE=%d" % r, "KMAX=%d" % k, "WMAX=%d" % w, "ANY_BYTES=1"], flags=UW(max(k, w) + 2), cap=600, rss=2.0))
+    return out
+
+
+def g_t3_lemma(tier, cfgs=("s",), rules=(0, 1, 2, 3)):
+    out = []
+    for c in cfgs:
+        for r in rules:
+            k, w = t1_bounds(r, tier)
+            out.append(I("t3_lemma", cfg=c, defs=["RULE=%d" % r, "KMAX=%d" % k, "WMAX=%d" % w], flags=UW(max(k, w) + 2), cap=1500, rss=2.5))
+    return out
+
+
+def g_t2(tier):
+    out = [I("t2_search", defs=["SORTED=1"], flags=UW(13), cap=120, rss=1.0),
+           I("t2_search", defs=["SORTED=0", "LINEAR_PREFIX=256"], flags=UW(258), cap=300, rss=2.5)]
+    if tier == "thorough":
+        out.append(I("t2_search", defs=["SORTED=0"], flags=UW(2050), cap=2400, rss=26.0))
+    return out
+
+
+def g_t4(langs=LANGS, cfgs=("s",), selffind=False):
+    out = []
+    for c in cfgs:
+        for l in langs:
+            d = ["LID=" + l, "GOLD_HEADER=<words_%s.h>" % l]
+            out.append(I("t4_table", cfg=c, defs=d, tus=["lang", "lang_" + l], cap=900, rss=2.0))
+            if l.startswith("zh"):
+                out.append(I("t4_distinct", cfg=c, defs=d + ["UNSORTED=1"], tus=["lang", "lang_" + l], cap=900, rss=2.0))
+            if selffind:
+                out.append(I("t4_selffind", cfg=c, defs=d, tus=["lang", "lang_" + l], cap=1800, rss=4.0))
+    return out
+
+
+def g_c17(langs):
+    return [I("c17_len", defs=["LID=" + l], cap=1200, rss=5.5) for l in langs]
+
+
+def g_api():
+    return [I("k7_keygen"), I("k7_inject"), I("k8_crypt"), I("k9_create"), I("p7_load"), I("p7_store"), I("h_free"), I("h_inject")]
+
+
+def dedup(lst):
+    seen, out = set(), []
+    for d in lst:
+        key = (d["hname"], d["cfg"], tuple(d["defs"]), tuple(d.get("flags", [])), tuple(d.get("tus", []) or []))
+        if key not in seen:
+            seen.add(key)
+            out.append(d)
+    return out
+
+
 def instances_for(pid, tier):
-    P = PROPS[pid]
-    f = P["instances"]
-    return f(tier)
+    return dedup(PROPS[pid]["instances"](tier))
 
 
-PROPS["C02"] = {
-    "instances": lambda tier: [I("k1_mul2"), I("k2_eval"), I("k2_single"), I("k2_swap"), I("k2_unique")],
-}
+def P(pid, instances, **kw):
+    kw["instances"] = instances
+    PROPS[pid] = kw
+
+
+P("C01", lambda t: g_k2()[1:3] + g_k3() + g_p1() + [I("p2_layout")] + g_p3(t) + g_p4(t) + g_p5() + g_p6()
+  + g_t1(t) + g_t2(t) + g_t3_lemma(t) + g_t4())
+P("C02", lambda t: g_k2() + g_p5() + [I("p7_load")] + g_t3_lemma(t) + g_t4())
+P("C03", lambda t: g_k2()[1:2] + g_k3() + g_p1() + [I("p2_layout")] + g_t4())
+P("C04", lambda t: [I("k7_keygen"), I("k7_inject"), I("k8_crypt"), I("k9_create"), I("p7_load")] + g_p5())
+P("C05", lambda t: [I("k2_coin"), I("k2_eval"), I("p2_layout")] + g_p5())
+P("C06", lambda t: [I("k6_store"), I("k6_load"), I("p7_load"), I("p7_store")])
+P("C07", lambda t: g_t4(selffind=(t == "thorough")) + g_t1(t) + g_t2(t) + g_t3_lemma(t))
+P("C08", lambda t: g_t1(t) + g_t2(t) + g_t3_lemma(t) + g_t4() + g_p3(t) + g_p5() + g_p6())
+P("C09", lambda t: g_p4(t) + g_p5() + g_p6() + g_t1(t, rules=(0, 1)))
+P("C10", lambda t: [I("k5_features"), I("k5_default"), I("k9_create"), I("p7_load"), I("p7_store"), I("k8_crypt")] + g_p5() + g_k3() + [I("k6_store")])
+P("C11", lambda t: [I("k4_birthday"), I("k9_create"), I("k8_crypt"), I("p7_store")] + g_k3() + [I("k6_store")])
+P("C12", lambda t: [I("k8_crypt"), I("k8_crypt", defs=["PWMAX=20"], cap=600, rss=3.0)] + g_p3(t) + g_k2()[1:3] + g_k3()
+  if t == "thorough" else [I("k8_crypt")] + g_p3(t) + g_k2()[1:3] + g_k3())
+P("C13", lambda t: g_api() + [I("k5_features"), I("k5_default"), I("p2_layout")] + g_p5() + g_k3())
+P("C14", lambda t: g_p3(t) + g_p4(t) + g_t1_safety() + g_t1(t) + g_p5() + g_p6() + [I("p7_load"), I("k8_crypt")])
+P("C15", lambda t: [I("k9_create"), I("p7_load"), I("h_free"), I("h_inject")] + g_p5())
+P("C16", lambda t: [I("k8_crypt"), I("k9_create"), I("p2_layout"), I("p7_load"), I("h_free"), I("p6_wipe")] + g_p5())
+P("C17", lambda t: g_c17(["ko", "jp", "fr"] if t == "quick" else LANGS) + g_p3(t) + [I("p2_layout")])
+P("C18", lambda t: [I("k9_create"), I("h_inject"), I("k7_keygen"), I("k8_crypt"), I("p7_load"), I("h_free")] + g_p5())
+P("C19", lambda t: g_t1(t, cfgs=("s", "u")) + g_t3_lemma(t, cfgs=("s", "u")) + g_t4(cfgs=("s", "u")) + g_p3(t, cfgs=("s", "u"))
+  + g_p6(cfgs=("s", "u")) + (g_p4(t, cfgs=("s", "u")) if t == "thorough" else [I("p4_split", cfg=c, defs=["P4_LEN=12"], flags=UW(19), cap=300, rss=1.0) for c in ("s", "u")]))
+P("C20", lambda t: g_api() + g_p5() + [I("p2_layout"), I("p6_auto")], level="other")
